@@ -59,8 +59,36 @@ Section RenameTrivial.
     - inversion E; subst. left. reflexivity.
     - right. apply IH. exact E.
   Qed.
+  (* the map is applied once, simultaneously: in the chain A -> B, B -> C deme A becomes B
+     (not C) and B becomes C; in a swap each takes the other's name; an unmentioned name stays *)
+  Theorem rn_simultaneous names a b :
+    NoDup (map fst names) -> In (a, b) names -> rn names a = b.
+  Proof.
+    unfold rn. induction names as [|[k v] names IH]; cbn; intros Hnd Hin; [tauto|].
+    inversion Hnd as [|? ? Hni Hnd']; subst.
+    destruct Hin as [E|Hin].
+    - inversion E; subst. rewrite String.eqb_refl. reflexivity.
+    - destruct (String.eqb_spec a k) as [Ek|Ek].
+      + exfalso. subst k. apply Hni. apply in_map_iff. exists (a, b). split; [reflexivity|exact Hin].
+      + apply IH; assumption.
+  Qed.
+
+  Theorem rn_untouched names a : ~ In a (map fst names) -> rn names a = a.
+  Proof.
+    unfold rn. induction names as [|[k v] names IH]; cbn; intros Hn; [reflexivity|].
+    destruct (String.eqb_spec a k) as [Ek|Ek].
+    - exfalso. apply Hn. left. symmetry. exact Ek.
+    - apply IH. intro X. apply Hn. right. exact X.
+  Qed.
+
+  Example rn_chain_and_swap :
+    map (rn [("A", "B"); ("B", "C")]) ["A"; "B"; "C"; "D"] = ["B"; "C"; "C"; "D"] /\
+    map (rn [("A", "B"); ("B", "A")]) ["A"; "B"; "D"] = ["B"; "A"; "D"].
+  Proof. split; reflexivity. Qed.
 End RenameTrivial.
 
 Print Assumptions rename_trivial.
 Print Assumptions fixes_all_empty.
 Print Assumptions fixes_all_self.
+Print Assumptions rn_simultaneous.
+Print Assumptions rn_untouched.
